@@ -21,7 +21,7 @@
 EXTENDS Naturals, Sequences, FiniteSets, TLC
 
 Families == {"fmt_container", "fmt_enum", "debug_field", "from_variant", "from_struct", "asref_struct", "asref_field",
-             "into_struct", "into_field", "legacy_field", "legacy_forms", "error_field",
+             "into_struct", "into_field", "legacy_field", "legacy_forms", "error_field", "ignored_variant_field",
              \* field attributes of Debug under a struct-level / variant-level `#[debug("...")]`: a field format is
              \* forbidden there, everything else is judged as on any field
              "debug_field_cfmt", "debug_field_vfmt"}
@@ -41,6 +41,8 @@ Atoms(f) ==
       [] f = "into_field"    -> {"skip", "ignore"}
       [] f = "legacy_field"  -> {"sel", "ignore", "forward", "unknown", "eq_value", "name_value", "lit_param", "not_foreign", "not_unneg", "dup_flag", "contra_flag"}
       [] f = "legacy_forms"  -> {"owned", "ref", "ref_mut", "owned_ref", "all3", "unknown", "list_param", "name_value", "not_foreign", "not_unneg", "dup_flag"}
+      \* a field of a variant that carries `ignore`: its attributes are validated like any other field's
+      [] f = "ignored_variant_field" -> {"unknown", "form_on_field", "list_param"}
       [] f = "error_field"   -> {"source", "not_source", "backtrace", "ignore", "source_backtrace", "unknown", "nested_not", "not_unknown",
                                  "list_param", "not_foreign", "not_unneg", "dup_flag", "contra_flag"}
 
@@ -54,6 +56,8 @@ Corrupt(f, a) == a \in {"legacy_fmt", "legacy_bound", "unknown", "legacy_types",
                          "forms_nocomma",
                          \* one attribute giving a flag twice (`forward, forward`) or together with its negation (`source, not(source)`)
                          "dup_flag", "contra_flag",
+                         \* a reference-form word on a FIELD (they belong to the enum / the variant)
+                         "form_on_field",
                          \* a bare `#[from]` chooses among VARIANTS: on a struct it means nothing and is rejected
                          \* (`#[from(skip)]` on a struct is a type list naming a type called `skip`: C08's subject)
                          "variant_only_from"}
@@ -96,7 +100,7 @@ Repeatable(f) == CASE f \in {"fmt_container"} -> {"bound"}
                    [] f = "into_struct" -> {"conv"}
                    [] OTHER -> {}
 \* the State-based (legacy) derives read a single attribute per position
-SingleAttr(f) == f \in {"legacy_field", "legacy_forms", "error_field"}
+SingleAttr(f) == f \in {"legacy_field", "legacy_forms", "error_field", "ignored_variant_field"}
 
 REJECT == {<<"REJECT", 0>>}
 Result(f, as) ==
